@@ -343,7 +343,7 @@ def check_property(prop, tier='quick', seed=0, write=True, strict_selftest=False
                               f"{it['text'][:100]} -- {it['why']}")
 
     st = None
-    if tier == 'thorough':
+    if tier == 'thorough' and os.environ.get('OMSTATIC_SKIP_SELFTEST') != '1':
         base_items = [it for r in res for it in r['items'] if it['status'] == 'violation']
         st = run_selftest(prop, base_items, findings, base_repo=repo)
         print(f"SELFTEST {prop} mutants={st['mutants']} killed={st['killed']} twins={st['twins']} "
